@@ -133,7 +133,7 @@ fn play_events(srv: &mut Srv, rng: &mut Rng, ctxs: &[Scru128Id; 3], n_events: us
     for ev in ev_base..ev_base + n_events {
         let ci = rng.below(3);
         let ctx = ctxs[ci];
-        let kind = *rng.pick(&["h-register", "h-register", "h-unregister", "h-unregister-targeted", "h-fail", "h-register-bad", "g-spawn", "g-spawn", "g-spawn-nocontent", "c-define", "c-define", "c-define-bad", "c-call", "noise"]);
+        let kind = *rng.pick(&["h-register", "h-register", "h-unregister", "h-unregister-targeted", "h-fail", "h-register-bad", "g-spawn", "g-spawn", "g-spawn-nocontent", "g-spawn-nocontent-then-good", "c-define", "c-define", "c-define-bad", "c-call", "noise"]);
         match kind {
             "h-register" => {
                 let n = *rng.pick(&hnames);
@@ -173,6 +173,15 @@ fn play_events(srv: &mut Srv, rng: &mut Rng, ctxs: &[Scru128Id; 3], n_events: us
             "g-spawn" => {
                 let n = *rng.pick(&gnames);
                 srv.must_append(&format!("{}.spawn", n), ctx, Some(format!("\"tick-{}-{}\"", n, ev).as_bytes()), None, None)?;
+            }
+            "g-spawn-nocontent-then-good" => {
+                // a spawn that cannot be honoured immediately followed by a good one of the same name: the error
+                // report of the first is written asynchronously and may land after the second spawn
+                let n = *rng.pick(&gnames);
+                let v = srv.call(json!({"op": "append_pair", "topic": format!("{}.spawn", n), "ctx": ctx.to_string(), "second_content_b64": crate::session::b64(format!("\"tick-{}-{}\"", n, ev).as_bytes())}))?;
+                if v.get("ok").is_none() {
+                    return Err(crate::session::SessionError::Harness(format!("append_pair: {}", v)));
+                }
             }
             "g-spawn-nocontent" => {
                 let n = *rng.pick(&gnames);
